@@ -133,6 +133,9 @@ fn runtime() -> Runtime<NoCtx> {
         fn pure_char(x: char) -> char { ev(format!("pure_char {:#x}", x as u32)); x }
 
         /// seven arguments of mixed width (argument position / register assignment)
+        // registered functions that build an Option / Result on the Rust side
+        fn opt_of(x: u32) -> Option<u32> { ev(format!("opt_of {:#x}", x)); if x & 1 == 1 { Some(x ^ 0x5A5A) } else { None } }
+        fn res_of(x: u32) -> Result<u32, i32> { ev(format!("res_of {:#x}", x)); if x < 0x8000_0000 { Ok(x.wrapping_add(7)) } else { Err((x as i32).wrapping_neg()) } }
         // registered methods with a visible effect: `recv.msub(y)` logs receiver and argument and returns recv - y (wrapping)
         impl i32 { fn msub(self, y: i32) -> i32 { ev(format!("msub_i32 {:#x} {:#x}", self as u32, y as u32)); self.wrapping_sub(y) } }
         impl u8 { fn msub(self, y: u8) -> u8 { ev(format!("msub_u8 {:#x} {:#x}", self, y)); self.wrapping_sub(y) } }
